@@ -173,7 +173,17 @@ type lspec struct {
 	U int `json:"u"` // url menu
 	M int `json:"m"` // media type menu
 	A int `json:"a"` // annotation preset
+	G int `json:"g"` // 1: this layer's digest uses the other algorithm than the case's (mixed digest lengths)
 }
+
+func algName(a int) string {
+	if a == 1 {
+		return "sha512"
+	}
+	return "sha256"
+}
+
+func (c mcase) dg(l lspec) digest.Digest { return digestPool[c.Alg^l.G][l.D] }
 
 type mcase struct {
 	H   int     `json:"h"`   // 0 default handler, 1 extra handler on CRI labels
@@ -193,20 +203,24 @@ func (c mcase) String() string {
 		if l.A != 0 {
 			s += fmt.Sprintf(" annotation[%s]=%q", annotMenu[l.A].K, annotMenu[l.A].V)
 		}
+		if l.G != 0 {
+			s += " " + algName(c.Alg^1)
+		}
 		ls = append(ls, s+"}")
 	}
 	if len(ls) > 8 {
 		ls = append(append(append([]string{}, ls[:3]...), fmt.Sprintf("... %d more (U=none unless listed) ...", len(ls)-6)), ls[len(ls)-3:]...)
 		for i, l := range c.L {
-			if i >= 3 && i < len(c.L)-3 && (l.U != 0 || l.M != 0 || l.A != 0 || l.D != i) {
-				ls = append(ls, fmt.Sprintf("L%d{digest=D%d type=%s urls=%s}", i, l.D, layerMTs[l.M].MT, uNames[l.U]))
+			if i >= 3 && i < len(c.L)-3 && (l.U != 0 || l.M != 0 || l.A != 0 || l.D != i || l.G != 0) {
+				g := ""
+				if l.G != 0 {
+					g = " " + algName(c.Alg^1)
+				}
+				ls = append(ls, fmt.Sprintf("L%d{digest=D%d type=%s urls=%s%s}", i, l.D, layerMTs[l.M].MT, uNames[l.U], g))
 			}
 		}
 	}
-	alg := "sha256"
-	if c.Alg == 1 {
-		alg = "sha512"
-	}
+	alg := algName(c.Alg) + " unless marked"
 	return fmt.Sprintf("handler=%s ref=%q prefetch=%d manifest=%s digests=%s layers(%d)=[%s]", hNames[c.H], refMenu[c.R].S, prefetchMenu[c.P], manifestMTs[c.MT], alg, len(c.L), strings.Join(ls, " "))
 }
 
@@ -244,7 +258,7 @@ func build(c mcase) built {
 	}
 	m.Config = ocispec.Descriptor{MediaType: cfgMT, Digest: digest.FromString("config"), Size: 6}
 	for i, l := range c.L {
-		d := ocispec.Descriptor{MediaType: layerMTs[l.M].MT, Digest: digestPool[c.Alg][l.D], Size: int64(100 + l.D), URLs: urlsFor(i, l.U)}
+		d := ocispec.Descriptor{MediaType: layerMTs[l.M].MT, Digest: c.dg(l), Size: int64(100 + l.D), URLs: urlsFor(i, l.U)}
 		if l.A != 0 {
 			d.Annotations = map[string]string{annotMenu[l.A].K: annotMenu[l.A].V}
 		}
@@ -778,10 +792,7 @@ func (x *checker) judge(c mcase, b built, t int, labels map[string]string, r rd,
 	case len(neigh) == len(expect):
 		x.res.Outcomes["e2e:"+hn+":neighbours:all"]++
 	default:
-		// how many digests fit the layers label (target included)?
-		dl := len(b.layers[t].Digest.String())
-		room := (labelLimit - len(kLayers)) / (dl + 1)
-		if len(neigh) >= room-1-countDupTarget(c, b, t, room) {
+		if len(neigh) >= fitCount(c, b, t) {
 			x.res.Outcomes["e2e:"+hn+":neighbours:proper-prefix(label size limit)"]++
 		} else {
 			x.res.Outcomes["e2e:"+hn+":neighbours:proper-prefix(shorter than the label limit requires)"]++
@@ -795,16 +806,24 @@ func (x *checker) judge(c mcase, b built, t int, labels map[string]string, r rd,
 	return len(neigh) > 0 || len(nonEmpty(src.Target.URLs)) > 0
 }
 
-// countDupTarget: entries within the label's room that repeat the target digest (they take
-// room in the label but are not neighbours).
-func countDupTarget(c mcase, b built, t, room int) int {
-	n, seen := 0, 0
-	for j := t + 1; j < len(c.L) && seen < room-1; j++ {
+// fitCount: how many neighbours the layers label has room for: the longest run of layer entries
+// from the target on whose comma-joined digests stay within the label limit (entries repeating
+// the target digest take room but are not neighbours).
+func fitCount(c mcase, b built, t int) int {
+	total := len(kLayers) + len(b.layers[t].Digest.String()) + 1 // default writer counts a trailing comma
+	if c.H == 1 {
+		total = len(kCRILayers) + len(b.layers[t].Digest.String())
+	}
+	n := 0
+	for j := t + 1; j < len(c.L); j++ {
 		if !layerMTs[c.L[j].M].Layer {
 			continue
 		}
-		seen++
-		if b.layers[j].Digest == b.layers[t].Digest {
+		total += len(b.layers[j].Digest.String()) + 1
+		if total > labelLimit {
+			break
+		}
+		if b.layers[j].Digest != b.layers[t].Digest {
 			n++
 		}
 	}
@@ -980,7 +999,7 @@ func corruptionMenu(c mcase, tl tlabels, key string) []mutation {
 			{"no-algorithm", hexd}, {"other-sha256", otherDigest(2)}, {"sha512", digest.SHA512.FromString("x").String()}, {"sha384", digest.SHA384.FromString("x").String()}}
 		for j := range c.L {
 			if j != tl.t {
-				vals = append(vals, [2]string{"digest-of-another-layer", digestPool[c.Alg][c.L[j].D].String()})
+				vals = append(vals, [2]string{"digest-of-another-layer", c.dg(c.L[j]).String()})
 				break
 			}
 		}
@@ -1292,6 +1311,86 @@ func families() []family {
 				}
 			}
 		}},
+		{name: "mixed", shards: 8, gen: func(tier string, yield func(mcase)) {
+			// digests of mixed length (sha256: 71 bytes, sha512: 135 bytes) around the point where the
+			// layers label is full: an entry that no longer fits may be followed by a shorter one that would
+			emitAll := func(alg int, flip []bool) {
+				n := len(flip)
+				for ucfg := 0; ucfg < 3; ucfg++ {
+					l := make([]lspec, n)
+					for i := range l {
+						l[i].D = i
+						if flip[i] {
+							l[i].G = 1
+						}
+						// URLs on the last layers (those around / after the cut-off)
+						if (ucfg == 1 && i >= n-6) || (ucfg == 2 && i >= n-3) {
+							l[i].U, l[i].M = ucfg, 1
+						}
+					}
+					for h := 0; h < 2; h++ {
+						yield(mcase{H: h, Alg: alg, L: l})
+					}
+				}
+			}
+			// (1) mostly one algorithm, one or two layers of the other one near the front or the cut-off
+			type major struct{ alg, lim int }
+			for _, mj := range []major{{0, 56}, {1, 29}} {
+				for n := mj.lim; n <= mj.lim+4; n++ {
+					var pos []int
+					for _, p := range []int{0, 1, mj.lim - 3, mj.lim - 2, mj.lim - 1, mj.lim, mj.lim + 1, mj.lim + 2} {
+						if p < n {
+							pos = append(pos, p)
+						}
+					}
+					for i, p1 := range pos {
+						flip := make([]bool, n)
+						flip[p1] = true
+						emitAll(mj.alg, flip)
+						for _, p2 := range pos[i+1:] {
+							f2 := append([]bool{}, flip...)
+							f2[p2] = true
+							emitAll(mj.alg, f2)
+						}
+					}
+				}
+			}
+			// (2) k layers of one algorithm followed by layers of the other, total around the limit; both orders
+			ks := []int{1, 5, 10, 15, 20, 25, 28, 29}
+			if tier == "thorough" {
+				ks = seq(31)[1:]
+			}
+			for _, k := range ks {
+				// k sha512 then j sha256
+				j0 := (labelLimit - len(kLayers) - 136*k) / 72
+				for dj := -1; dj <= 3; dj++ {
+					if j := j0 + dj; j >= 1 {
+						flip := make([]bool, k+j)
+						for i := 0; i < k; i++ {
+							flip[i] = true
+						}
+						emitAll(0, flip)
+					}
+				}
+			}
+			ks2 := []int{1, 10, 20, 30, 40, 50, 54, 55, 56}
+			if tier == "thorough" {
+				ks2 = seq(58)[1:]
+			}
+			for _, k := range ks2 {
+				// k sha256 then j sha512
+				j0 := (labelLimit - len(kLayers) - 72*k) / 136
+				for dj := -1; dj <= 3; dj++ {
+					if j := j0 + dj; j >= 1 {
+						flip := make([]bool, k+j)
+						for i := 0; i < k; i++ {
+							flip[i] = true
+						}
+						emitAll(1, flip)
+					}
+				}
+			}
+		}},
 		{name: "annot", shards: 1, gen: func(tier string, yield func(mcase)) {
 			// layer descriptors whose own (manifest-supplied) annotations use protocol keys
 			for n := 1; n <= 3; n++ {
@@ -1342,7 +1441,7 @@ func families() []family {
 	}
 }
 
-var order = map[string]int{"mutate": 0, "annot": 1, "small": 2, "n3": 3, "n45": 4, "big": 5}
+var order = map[string]int{"mutate": 0, "annot": 1, "small": 2, "n3": 3, "n45": 4, "big": 5, "mixed": 6}
 
 func clone(c mcase) mcase {
 	c.L = append([]lspec{}, c.L...)
@@ -1433,7 +1532,7 @@ func main() {
 	runner.Main(runner.Check{
 		ID:    "C20",
 		Level: "exploration",
-		Rule:  "every manifest of the stated families (config + n layers, n in 0..5 and 55,56,57,60 [sha512: 29,30,31]; every repeated-digest pattern; per-layer URL lists none/1/2/with-comma/over-limit/3 URLs with joined length limit-4..limit+1; layer, foreign-layer and non-layer media types; manifest-supplied annotations on protocol keys) x {default handler, extra handler over containerd's CRI labels} x prefetch {1,0,2^62} x 4 references, every layer as mount target, read back by the direct reader and by service.sources; then every subset of the emitted labels removed and every label corrupted from a menu. evaluations = reader invocations; states = distinct manifest/handler inputs; non-trivial = inputs whose reconstructed source carried >=1 URL or neighbour, plus label-set variants whose reader result differs from the unmutated one",
+		Rule:  "every manifest of the stated families (config + n layers, n in 0..5 and 55,56,57,60 [sha512: 29,30,31]; manifests mixing sha512 and sha256 digests around the point where the layers label is full (one or two odd-length digests near the cut-off, and k digests of one algorithm followed by the other, both orders, with and without URLs after the cut-off); every repeated-digest pattern; per-layer URL lists none/1/2/with-comma/over-limit/3 URLs with joined length limit-4..limit+1; layer, foreign-layer and non-layer media types; manifest-supplied annotations on protocol keys) x {default handler, extra handler over containerd's CRI labels} x prefetch {1,0,2^62} x 4 references, every layer as mount target, read back by the direct reader and by service.sources; then every subset of the emitted labels removed and every label corrupted from a menu. evaluations = reader invocations; states = distinct manifest/handler inputs; non-trivial = inputs whose reconstructed source carried >=1 URL or neighbour, plus label-set variants whose reader result differs from the unmutated one",
 		Assumptions: []string{
 			"an empty-string element in a reconstructed URL list is not a URL and is ignored on both sides (the writer emits an empty urls label for a layer without URLs; the reader turns it into [\"\"])",
 			"two descriptors with the same digest denote the same blob: a neighbour carrying the URLs of the other descriptor with its digest is accepted and counted separately in the outcomes",
